@@ -29,18 +29,26 @@ def find(crates, E, T):
 
 
 def eq_consts(body, vx, pred):
-    """constants c of switch conditions `X == c` where pred(X)."""
+    """(c, switch block, target) for every edge that is taken exactly when X == c, where pred(X):
+    `if X == c`, `if X != c` (the other edge), and `match X { c1 | c2 => .. }` / `matches!(X, ..)`
+    (a switch on X itself with one target per constant)."""
     out = []
     for i in sorted(body.reachable(0)):
         t = body.blocks[i]["term"]
         if t["t"] != "switch":
             continue
         c = vx.operand(t["d"], i)
-        if c[0] == "bin" and c[1] == "Eq":
+        if c[0] == "bin" and c[1] in ("Eq", "Ne"):
             for a, b in ((c[2], c[3]), (c[3], c[2])):
                 if b[0] == "const" and isinstance(b[1], int) and pred(a):
-                    true_t = t["else"]
-                    out.append((b[1], i, true_t))
+                    zero_t = dict((v, tb) for v, tb in t["targets"]).get(0)
+                    true_t = t["else"] if c[1] == "Eq" else zero_t
+                    if true_t is not None:
+                        out.append((b[1], i, true_t))
+        elif pred(c):
+            for v, tb in t["targets"]:
+                if tb != t["else"]:
+                    out.append((v, i, tb))
     return out
 
 
@@ -213,22 +221,10 @@ def tags(chk, crates):
 
 
 def _under_any(body, edges, target_bb):
-    """target is reachable only through one of the (switch_bb, true_target) edges."""
-    cut = set(edges)
-    seen = set()
-    st = [0]
-    while st:
-        x = st.pop()
-        if x in seen:
-            continue
-        seen.add(x)
-        if x == target_bb:
-            return False
-        for s in body.succ[x]:
-            if (x, s) in cut:
-                continue
-            st.append(s)
-    return target_bb in body.reachable(0)
+    """target is reachable only through one of the (switch_bb, true_target) edges (bool temporaries such
+    as the result of `matches!` are followed path-sensitively)."""
+    from mirlite import feasible_reach
+    return target_bb not in feasible_reach(body, 0, cut_edges=set(edges)) and target_bb in body.reachable(0)
 
 
 def sentinel(chk, crates):
@@ -251,6 +247,34 @@ def sentinel(chk, crates):
                 if arr and sl:
                     rd.append((tuple(e[1] for e in arr[0][2] if e[0] == "const"), show(strip_ref(sl[0][2][1])), i, t["else"]))
     ok = len(rd) == 1 and rd[0][0] == (0xFF, 0xFF) and "Range{0, 2}" in rd[0][1]
+    if not rd:
+        # the same test written byte by byte: `bytes[0] == 0xff && bytes[1] == 0xff`
+        def idx_const(l):
+            ds = vd.tr.defs.get(l, [])
+            if len(ds) == 1 and ds[0][2] == "assign":
+                e = vd.rvalue(ds[0][3]["rv"], ds[0][0])
+                if e[0] == "const" and isinstance(e[1], int):
+                    return e[1]
+            return None
+        tests = []
+        for i in sorted(dec.reachable(0)):
+            t = dec.blocks[i]["term"]
+            if t["t"] != "switch":
+                continue
+            c = vd.operand(t["d"], i)
+            if c[0] == "bin" and c[1] == "Eq":
+                for a, b_ in ((c[2], c[3]), (c[3], c[2])):
+                    if b_[0] == "const" and a[0] == "path" and a[1] == vd.root_name(1) and len(a[2]) == 1 and \
+                            isinstance(a[2][0], tuple) and a[2][0][0] == "idx":
+                        k = idx_const(a[2][0][1])
+                        if k is not None:
+                            tests.append((k, b_[1], i, t["else"]))
+        tests.sort()
+        if [(k, v) for k, v, _, _ in tests] == [(0, 0xFF), (1, 0xFF)] and \
+                _under_any(dec, [(tests[0][2], tests[0][3])], tests[1][2]):
+            # the second test is only reached on the first test's equal edge: its equal edge is the sentinel edge
+            rd = [((0xFF, 0xFF), "Range{0, 2} (bytewise)", tests[1][2], tests[1][3])]
+            ok = True
     chk.require(ok, "C17-d/reader-sentinel", "PartialReversalReceiptNo::decode",
                 "reader recognises %s as the sentinel, specification says bytes FF FF at 0..2" % rd, "bytes[0..2] == [0xFF, 0xFF]", dec.sp())
 
